@@ -261,6 +261,34 @@ def Item.run (honour : Bool) (it : Item α) : List Call → Item α × List (Obs
 def Item.runCode (it : Item α) (cs : List Call) : Item α × List (Obs α) :=
   it.run deckItemGetHonoursRawData cs
 
+/-! ### `data::Solution`: conversion of output vectors, guarded by the `si` flag -/
+
+/-- the measure whose vectors are never converted (`dim != UnitSystem::measure::identity`) -/
+def identityIdx : Nat := measureNames.idxOf "identity"
+
+/-- `data::Solution`: `(measure, data)` per cell vector and the `si` flag -/
+structure Sol (α : Type) where
+  si : Bool
+  cells : List (Nat × List α)
+
+/-- `UnitSystem::from_si(measure, std::vector<double>&)`: `(x - offset) * factor` -/
+def fromSIVec (s : SysDef α) (m : Nat) (xs : List α) : List α :=
+  xs.map fun x => (x - s.toSIOffset.getD m zero) * s.fromSI.getD m zero
+
+/-- `UnitSystem::to_si(measure, std::vector<double>&)`: `x * factor + offset` -/
+def toSIVec (s : SysDef α) (m : Nat) (xs : List α) : List α :=
+  xs.map fun x => x * s.toSI.getD m zero + s.toSIOffset.getD m zero
+
+/-- `data::Solution::convertFromSI` -/
+def Sol.convertFromSI (s : SysDef α) (sol : Sol α) : Sol α :=
+  if !sol.si then sol
+  else { si := false, cells := sol.cells.map fun c => (c.1, if c.1 = identityIdx then c.2 else fromSIVec s c.1 c.2) }
+
+/-- `data::Solution::convertToSI` -/
+def Sol.convertToSI (s : SysDef α) (sol : Sol α) : Sol α :=
+  if sol.si then sol
+  else { si := true, cells := sol.cells.map fun c => (c.1, if c.1 = identityIdx then c.2 else toSIVec s c.1 c.2) }
+
 end
 
 end OpmVerif.Units
